@@ -104,6 +104,41 @@ func genMux() (string, error) {
 		}
 	}
 	fmt.Fprintf(&b, "/-- a message of which only a prefix could be enqueued ends the connection (`Send`: `if partial { c.Error(…) }`) -/\ndef partialEnqueueTearsDown : Bool := %v\ndef src_partialTeardown : String := %q\n", tears, tearSrc)
+	// is the enqueue of a whole message atomic w.r.t. every other enqueue on the same stream?
+	// Recognised shape: in queueSends nothing but `defer …` precedes `s.mu.Lock(); defer s.mu.Unlock()`, every
+	// queueSend call of the function comes after them; and every OTHER caller of queueSend in p2p/conn.go
+	// addresses the heartbeat stream (`stream, ok := c.streams[heartbeatTopic]`), which carries no multi-packet messages.
+	underMutex := false
+	{
+		locked, early := false, false
+		for i, st := range qs.Body.List {
+			txt := g.StmtText(st)
+			if _, isDefer := st.(*ast.DeferStmt); isDefer && !locked && txt != "defer s.mu.Unlock()" {
+				continue
+			}
+			if !locked {
+				if txt == "s.mu.Lock()" && i+1 < len(qs.Body.List) && g.StmtText(qs.Body.List[i+1]) == "defer s.mu.Unlock()" {
+					locked = true
+					continue
+				}
+				early = true // some statement runs before the lock is taken
+				break
+			}
+		}
+		others := true
+		for _, d := range cf.AST.Decls {
+			fd, ok := d.(*ast.FuncDecl)
+			if !ok || fd.Body == nil || fd.Name.Name == "queueSends" || fd.Name.Name == "queueSend" {
+				continue
+			}
+			body := g.StmtsText(fd.Body.List)
+			if strings.Contains(body, ".queueSend(") && !(strings.Contains(body, "stream, ok := c.streams[heartbeatTopic]") && strings.Count(body, ".queueSend(") == strings.Count(body, "stream.queueSend(")) {
+				others = false
+			}
+		}
+		underMutex = locked && !early && others
+	}
+	fmt.Fprintf(&b, "/-- all packets of a message are enqueued under the stream mutex, and no other enqueue path on a message stream bypasses it (only the heartbeat stream is fed directly) -/\ndef enqueueUnderStreamMutex : Bool := %v\n", underMutex)
 	// the select of the send loop: which queues it serves
 	ss := cf.FindFunc("MultiConn", "startSendService")
 	if ss == nil {
